@@ -3,6 +3,8 @@ package c05
 import (
 	"fmt"
 	"os"
+	"path/filepath"
+	"sort"
 	"strings"
 	"testing"
 	"time"
@@ -26,8 +28,9 @@ var recCrash = ev.New("C05", "crash-images",
 		"(a) before every mutating block-file operation (openw/write/sync/truncate/close/delete) and (b) after every commit, and again after a forced cache flush at generated commits; "+
 		"oracle: every image opens with database.Open and its whole visible state equals the model after SOME prefix p of the committed transactions with "+
 		"last-flushed <= p <= committed-so-far (every block of the prefix byte-identical, no later block visible); a further write transaction on the image and a reopen must succeed; "+
-		"non-trivial = image taken inside a commit or with unflushed commits; distinct by (workload hash, image index)",
-	"mid-commit", "commit-unflushed", "commit-flushed", "prefix<latest")
+		"every image whose block files hold bytes written after the file's last Sync (tracked through the interposer) is also checked in a power-loss variant in which those bytes are cut off while leveldb keeps all it committed (same oracle, same prefix range); "+
+		"non-trivial = image taken inside a commit, with unflushed commits or power-loss variant; distinct by (workload hash, image index)",
+	"mid-commit", "commit-unflushed", "commit-flushed", "prefix<latest", "lossy:mid-commit", "lossy:commit-unflushed")
 
 type crashImage struct {
 	dir      string
@@ -35,6 +38,47 @@ type crashImage struct {
 	lo, hi   int // admissible prefix range (indexes into states)
 	class    string
 	inPruneW bool // taken in the window between a pruning commit's file deletions and the next flush
+	lossy    bool // power-loss variant: block-file bytes written after the file's last Sync are gone
+}
+
+// fileExtent tracks, for one block file opened for writing, how much of it
+// exists and how much of that is known to be on stable storage (everything up
+// to the size at the most recent Sync).
+type fileExtent struct{ size, durable int64 }
+
+// trackExtent applies one block-file operation (reported before it is
+// performed) to the durability bookkeeping.
+func trackExtent(extents map[uint32]*fileExtent, dir string, op ffldb.VerifFileOp) {
+	x := extents[op.FileNum]
+	switch op.Op {
+	case "openw":
+		if x == nil {
+			x = &fileExtent{}
+			if st, err := os.Stat(filepath.Join(dir, fmt.Sprintf("%09d.fdb", op.FileNum))); err == nil {
+				x.size, x.durable = st.Size(), st.Size() // written by an earlier run of the database: on disk
+			}
+			extents[op.FileNum] = x
+		}
+	case "write":
+		if x != nil {
+			if end := op.Off + int64(op.Len); end > x.size {
+				x.size = end
+			}
+		}
+	case "truncate":
+		if x != nil {
+			x.size = op.Off
+			if x.durable > op.Off {
+				x.durable = op.Off
+			}
+		}
+	case "sync":
+		if x != nil {
+			x.durable = x.size
+		}
+	case "delete":
+		delete(extents, op.FileNum)
+	}
 }
 
 func TestCrashImages(t *testing.T) {
@@ -71,6 +115,7 @@ func TestCrashImages(t *testing.T) {
 		lastFlushed := 0
 		pruneWindow := false // files deleted by a prune whose metadata is not flushed yet
 		unstable := 0
+		extents := map[uint32]*fileExtent{}
 		snap := func(what, class string, lo, hi int) {
 			d := scratch.Dir("img")
 			before := dirStamp(e.dir)
@@ -86,11 +131,40 @@ func TestCrashImages(t *testing.T) {
 				return
 			}
 			images = append(images, crashImage{dir: d, what: what, lo: lo, hi: hi, class: class, inPruneW: pruneWindow})
+			// power-loss variant: leveldb keeps what it committed, every block file keeps only
+			// what was written before its last Sync (only made when that differs from the copy)
+			var cut []string
+			for num, x := range extents {
+				if x.durable < x.size {
+					cut = append(cut, fmt.Sprintf("%09d.fdb:%d", num, x.durable))
+				}
+			}
+			if len(cut) == 0 {
+				return
+			}
+			sort.Strings(cut)
+			d2 := scratch.Dir("imgl")
+			if err := copyDir(d, d2); err != nil {
+				infra(t, "copy lossy image: %v", err)
+			}
+			for num, x := range extents {
+				if x.durable < x.size {
+					fp := filepath.Join(d2, fmt.Sprintf("%09d.fdb", num))
+					if st, err := os.Stat(fp); err == nil && st.Size() > x.durable {
+						if err := os.Truncate(fp, x.durable); err != nil {
+							infra(t, "truncate lossy image: %v", err)
+						}
+					}
+				}
+			}
+			images = append(images, crashImage{dir: d2, what: what + " [power loss: unsynced block-file bytes dropped: " + strings.Join(cut, ",") + "]",
+				lo: lo, hi: hi, class: "lossy:" + class, inPruneW: pruneWindow, lossy: true})
 		}
 		committed := 0
 		inTx := false
 		ffldb.VerifInterposeFiles(e.db, func(op ffldb.VerifFileOp) error {
 			if !inTx {
+				trackExtent(extents, e.dir, op) // the forced cache flush syncs outside a transaction
 				return nil
 			}
 			switch op.Op {
@@ -101,6 +175,7 @@ func TestCrashImages(t *testing.T) {
 			if op.Op == "delete" {
 				pruneWindow = true // conservatively: any file deletion (prune; rollback never happens on a clean run)
 			}
+			trackExtent(extents, e.dir, op)
 			return nil
 		})
 		ntx := rapid.IntRange(3, 8).Draw(t, "ntx")
@@ -181,7 +256,7 @@ func TestCrashImages(t *testing.T) {
 				recCrash.Count("excluded:prune-window", 1)
 				continue
 			}
-			nt := im.class == "mid-commit" || im.lo < im.hi
+			nt := im.class == "mid-commit" || im.lo < im.hi || im.lossy
 			recCrash.Case(nt, im.class, ev.Hash([]byte(fmt.Sprintf("%x/%d", whash, idx))), func() any {
 				return map[string]any{"max_file": maxFile, "image": im.what, "admissible_prefixes": fmt.Sprintf("%d..%d of %d", im.lo, im.hi, committed)}
 			})
